@@ -18,18 +18,16 @@ theorem mem_subTypesL_forSub {c : Cmd} {b : Blk} {f t : String} (h : MStmt.forSu
   exact List.mem_filterMap.mpr ⟨_, h, rfl⟩
 
 /-- the AndX stanza assigns the AndX block only: what the run relies on in the receiver is untouched -/
-theorem Recv.set_ne {fs : List (String × Bool)} {e env' : Env} (h : Recv fs e env') (g : String) (v : Val)
-    (hg : ∀ p ∈ fs, p.1 ≠ g) : Recv fs (e.set g v) env' := by
-  intro p hp
-  obtain ⟨hs, hf⟩ := h p hp
-  have hne := hg p hp
-  refine ⟨fun hp2 => ?_, fun hp2 h0 => by rw [Env.get_set_ne _ _ _ _ hne]; exact hf hp2 h0⟩
-  obtain ⟨old, xs, h1, h2, h3⟩ := hs hp2
+theorem Recv.set_ne {fs : List String} {e env' : Env} (h : Recv fs e env') (g : String) (v : Val)
+    (hg : ∀ f ∈ fs, f ≠ g) : Recv fs (e.set g v) env' := by
+  intro f hf
+  obtain ⟨old, xs, h1, h2, h3⟩ := h f hf
+  have hne := hg f hf
   exact ⟨old, xs, by rw [Env.get_set_ne _ _ _ _ hne]; exact h1, h2, h3⟩
 
 /-- "WordCount tells which", from the static check: behind fixed-width slots of `n` bytes in all, the parameter
     block has the word count Unmarshal tests for iff the optional field is on the wire -/
-theorem optTrailing_wc {C : Codecs} {T : String → Prop} (andx : Bool) (env : Env) :
+theorem optTrailing_wc {C : Codecs} {T : String → Prop} (hC : LawfulCodecs C T) (andx : Bool) (env : Env) :
     ∀ (l : List Slot) (n : Nat), optTrailing andx l n = true → (∀ sl ∈ l, SlotFit C T env sl) →
       ∀ b w e f k, Slot.opt b w e f (some k) ∈ l → ∀ x, env.get f = some (.n x) →
         (andxWords andx + (n + (layoutBytes C env l).length + 1) / 2 = k ↔ x ≠ 0) := by
@@ -86,6 +84,12 @@ theorem optTrailing_wc {C : Codecs} {T : String → Prop} (andx : Bool) (env : E
             exact hot.2
           · simp only [hx0, if_false, intBytes_length, ne_eq, not_false_eq_true, iff_true]
             exact hot.1
+    | optInts b' w' e' f' n' wc' =>
+      rcases List.mem_cons.mp hmem with h | h
+      · cases h
+      · cases r with
+        | nil => cases h
+        | cons _ _ => simp [optTrailing] at hot
     | bytes b' g len =>
       simp only [optTrailing, List.all_eq_true] at hot
       rcases List.mem_cons.mp hmem with h | h
@@ -97,10 +101,135 @@ theorem optTrailing_wc {C : Codecs} {T : String → Prop} (andx : Bool) (env : E
       · cases h
       · have := hot _ h; simp at this
     | sub b' g t win =>
+      simp only [optTrailing] at hot
+      cases hfs : fixedSize t with
+      | none =>
+        rw [hfs] at hot
+        simp only [List.all_eq_true] at hot
+        rcases List.mem_cons.mp hmem with h | h
+        · cases h
+        · have := hot _ h; simp at this
+      | some sz =>
+        rw [hfs] at hot
+        obtain ⟨v, bs, hget, henc, hT⟩ := hfit (.sub b' g t win) (List.mem_cons_self ..)
+        have hlen := hC.size t sz v bs v hT hfs henc
+        have hm : Slot.opt b w e f (some k) ∈ r := by
+          rcases List.mem_cons.mp hmem with h | h
+          · cases h
+          · exact h
+        have := ih (n + sz) hot hfit' b w e f k hm x hx
+        rw [layoutBytes_cons]
+        simp only [slotBytes, hget, henc, List.length_append, hlen]
+        rw [← this]
+        constructor <;> intro h <;> rw [← h] <;> congr 2 <;> omega
+    | ints b' w' e' g cnt =>
       simp only [optTrailing, List.all_eq_true] at hot
       rcases List.mem_cons.mp hmem with h | h
       · cases h
       · have := hot _ h; simp at this
+    | subs b' g t cnt size =>
+      simp only [optTrailing, List.all_eq_true] at hot
+      rcases List.mem_cons.mp hmem with h | h
+      · cases h
+      · have := hot _ h; simp at this
+
+/-- the same for an optional array: the parameter block has the word count Unmarshal tests for iff some element
+    of the array is non-zero (the array has the `n` elements Unmarshal reads) -/
+theorem optTrailing_wcArr {C : Codecs} {T : String → Prop} (hC : LawfulCodecs C T) (andx : Bool) (env : Env) :
+    ∀ (l : List Slot) (off : Nat), optTrailing andx l off = true → (∀ sl ∈ l, SlotFit C T env sl) →
+      ∀ b w e f n k, Slot.optInts b w e f n (some k) ∈ l → ∀ xs, env.get f = some (.ns xs) → xs.length = n →
+        (andxWords andx + (off + (layoutBytes C env l).length + 1) / 2 = k ↔ xs.any (· != 0) = true) := by
+  intro l
+  induction l with
+  | nil => intro off _ _ b w e f n k hmem; cases hmem
+  | cons sl r ih =>
+    intro off hot hfit b w e f n k hmem xs hx hlen
+    have hfit' : ∀ sl ∈ r, SlotFit C T env sl := fun s hs => hfit s (List.mem_cons_of_mem _ hs)
+    cases sl with
+    | int b' w' e' g =>
+      simp only [optTrailing] at hot
+      obtain ⟨y, hy, _⟩ := hfit (.int b' w' e' g) (List.mem_cons_self ..)
+      have hm : Slot.optInts b w e f n (some k) ∈ r := by
+        rcases List.mem_cons.mp hmem with h | h
+        · cases h
+        · exact h
+      have := ih (off + w') hot hfit' b w e f n k hm xs hx hlen
+      rw [layoutBytes_cons]
+      simp only [slotBytes, hy, List.length_append, intBytes_length]
+      rw [← this]
+      constructor <;> intro h <;> rw [← h] <;> congr 2 <;> omega
+    | u8 b' g =>
+      simp only [optTrailing] at hot
+      obtain ⟨y, hy, _⟩ := hfit (.u8 b' g) (List.mem_cons_self ..)
+      have hm : Slot.optInts b w e f n (some k) ∈ r := by
+        rcases List.mem_cons.mp hmem with h | h
+        · cases h
+        · exact h
+      have := ih (off + 1) hot hfit' b w e f n k hm xs hx hlen
+      rw [layoutBytes_cons]
+      simp only [slotBytes, hy, List.length_append, List.length_cons, List.length_nil]
+      rw [← this]
+      constructor <;> intro h <;> rw [← h] <;> congr 2 <;> omega
+    | opt b' w' e' f' wc' =>
+      rcases List.mem_cons.mp hmem with h | h
+      · cases h
+      · cases r with
+        | nil => cases h
+        | cons _ _ => simp [optTrailing] at hot
+    | optInts b' w' e' f' n' wc' =>
+      cases r with
+      | cons _ _ => simp [optTrailing] at hot
+      | nil =>
+        cases wc' with
+        | none => simp [optTrailing] at hot
+        | some k' =>
+          simp only [optTrailing, Bool.and_eq_true, decide_eq_true_eq] at hot
+          have heq : Slot.optInts b w e f n (some k) = Slot.optInts b' w' e' f' n' (some k') := by
+            rcases List.mem_cons.mp hmem with h | h
+            · exact h
+            · cases h
+          injection heq with h1 h2 h3 h4 h5 h6
+          injection h6 with h6
+          subst h1 h2 h3 h4 h5 h6
+          rw [layoutBytes_cons, layoutBytes_nil, List.append_nil]
+          simp only [slotBytes, hx]
+          by_cases hany : xs.any (· != 0) = true
+          · simp only [hany, if_true, flatMap_intBytes_length, hlen, iff_true]
+            exact hot.1
+          · simp only [hany, Bool.false_eq_true, if_false, List.length_nil, Nat.add_zero, iff_false]
+            exact hot.2
+    | bytes b' g len =>
+      simp only [optTrailing, List.all_eq_true] at hot
+      rcases List.mem_cons.mp hmem with h | h
+      · cases h
+      · have := hot _ h; simp at this
+    | arr b' g =>
+      simp only [optTrailing, List.all_eq_true] at hot
+      rcases List.mem_cons.mp hmem with h | h
+      · cases h
+      · have := hot _ h; simp at this
+    | sub b' g t win =>
+      simp only [optTrailing] at hot
+      cases hfs : fixedSize t with
+      | none =>
+        rw [hfs] at hot
+        simp only [List.all_eq_true] at hot
+        rcases List.mem_cons.mp hmem with h | h
+        · cases h
+        · have := hot _ h; simp at this
+      | some sz =>
+        rw [hfs] at hot
+        obtain ⟨v, bs, hget, henc, hT⟩ := hfit (.sub b' g t win) (List.mem_cons_self ..)
+        have hlen' := hC.size t sz v bs v hT hfs henc
+        have hm : Slot.optInts b w e f n (some k) ∈ r := by
+          rcases List.mem_cons.mp hmem with h | h
+          · cases h
+          · exact h
+        have := ih (off + sz) hot hfit' b w e f n k hm xs hx hlen
+        rw [layoutBytes_cons]
+        simp only [slotBytes, hget, henc, List.length_append, hlen']
+        rw [← this]
+        constructor <;> intro h <;> rw [← h] <;> congr 2 <;> omega
     | ints b' w' e' g cnt =>
       simp only [optTrailing, List.all_eq_true] at hot
       rcases List.mem_cons.mp hmem with h | h
@@ -113,7 +242,7 @@ theorem optTrailing_wc {C : Codecs} {T : String → Prop} (andx : Bool) (env : E
       · have := hot _ h; simp at this
 
 structure MirrorFactsL (c : Cmd) (body : List UStmt) (m u : List Slot) : Prop where
-  hbody : bodyU c = some body
+  hbody : bodyN c = some body
   lm : layoutML c.marshal = some m
   lu : layoutUL body = some u
   agP : agreeAll (m.filter (·.blk == .P)) (u.filter (·.blk == .P)) = true
@@ -125,9 +254,9 @@ structure MirrorFactsL (c : Cmd) (body : List UStmt) (m u : List Slot) : Prop wh
   ok : okUL (!(u.filter (·.blk == .P)).isEmpty) (!(u.filter (·.blk == .D)).isEmpty) {}
     (if c.isAndX then [andxField] else []) body = true
   covered : ∀ f ∈ c.fields.map (·.1), f ∈ u.map Slot.field
-  range : ∀ p ∈ recvFields body, p.1 ≠ andxField ∧ c.marshal.all (fun s => s.modifies != some p.1) = true
+  range : ∀ f ∈ recvFields body, f ≠ andxField ∧ c.marshal.all (fun s => s.modifies != some f) = true
   optP : optTrailing c.isAndX (u.filter (·.blk == .P)) 0 = true
-  optD : ∀ sl ∈ u.filter (·.blk == .D), (match sl with | .opt .. => false | _ => true) = true
+  optD : ∀ sl ∈ u.filter (·.blk == .D), (match sl with | .opt .. | .optInts .. => false | _ => true) = true
 
 theorem mirror_factsL {c : Cmd} (hm : MirrorLoops c = true) : ∃ body m u, MirrorFactsL c body m u := by
   unfold MirrorLoops at hm
@@ -198,9 +327,9 @@ theorem mirror_loops_roundtrip_full {C : Codecs} {T : String → Prop} (hC : Law
   have hsz0 : Recv (recvFields body) env0 sM.env := by
     intro p hp
     obtain ⟨hne, hnomod⟩ := F.range p hp
-    have hfr : sM.env.get p.1 = env.get p.1 := by
-      rw [runMStmts_frameL C c.isAndX c.marshal m { env := prologueEnv c.isAndX env } sM F.lm hrun p.1 hnomod]
-      show (prologueEnv c.isAndX env).get p.1 = env.get p.1
+    have hfr : sM.env.get p = env.get p := by
+      rw [runMStmts_frameL C c.isAndX c.marshal m { env := prologueEnv c.isAndX env } sM F.lm hrun p hnomod]
+      show (prologueEnv c.isAndX env).get p = env.get p
       unfold prologueEnv
       split
       · exact Env.get_set_ne _ _ _ _ hne
@@ -208,61 +337,72 @@ theorem mirror_loops_roundtrip_full {C : Codecs} {T : String → Prop} (hC : Law
     unfold receiverFits at hrecv
     rw [F.hbody] at hrecv
     have := List.all_eq_true.mp hrecv p hp
-    refine ⟨fun hp2 => ?_, fun hp2 h0 => ?_⟩
-    · rw [if_pos hp2] at this
-      split at this
-      · rename_i a b' ha hb
-        exact ⟨a, b', ha, by rw [hfr]; exact hb, by simpa using this⟩
-      · cases this
-    · rw [if_neg (by simp [hp2])] at this
-      rw [hfr] at h0
-      simp only [h0] at this
-      simpa using this
+    split at this
+    · rename_i a b' ha hb
+      exact ⟨a, b', ha, by rw [hfr]; exact hb, by simpa using this⟩
+    · cases this
   have hgo : ∃ (s1 : UState), s1.P = sM.P ∧ s1.D = sM.D ∧ s1.offset = 0 ∧
       runU.go C s0 c.unmarshal = runU.go C s1 body ∧ relationsHold C sM.env sM.P.length 0 body = true ∧
       Agree (if c.isAndX then [andxField] else []) s1.env sM.env ∧
       (c.isAndX = true → (sM.env.get andxField).isSome = true) ∧ Recv (recvFields body) s1.env sM.env ∧
       s1.wordCount = wordCountOf c.isAndX sM.P ∧ s1.pad = 0 := by
     have hb := F.hbody
-    unfold bodyU at hb
+    unfold bodyN bodyU at hb
     cases ha : c.isAndX with
     | false =>
       rw [ha] at hb
-      simp only [Bool.false_eq_true, if_false, Option.some.injEq] at hb
+      simp only [Bool.false_eq_true, if_false, Option.map_some, Option.some.injEq] at hb
       subst hb
+      rw [← relationsHold_normWhole C sM.env sM.P.length c.unmarshal 0] at hrel
+      rw [← go_normWhole C c.unmarshal s0]
       exact ⟨s0, by simp [s0, axOf, ha, andxBytesOf], rfl, rfl, rfl, hrel, fun f hf => by simp at hf,
         (fun h => by cases h), hsz0, by simp [s0, ha], rfl⟩
     | true =>
       rw [ha] at hb haok hframe
-      simp only [if_true] at hb
+      simp only [if_true, Option.map_eq_some_iff] at hb
+      obtain ⟨body0, hb, rfl⟩ := hb
       obtain ⟨a, b, cc, dd, hax, hval⟩ := andxOk_decode env haok
       have h0 : s0.P = a :: b :: cc :: dd :: sM.P := by simp [s0, axOf, ha, hax]
       refine ⟨afterAndX s0 a b cc dd sM.P, rfl, rfl, rfl,
-        go_andx_prefix C a b cc dd sM.P c.unmarshal body s0 hb h0, ?_, ?_, fun _ => ?_, ?_, by simp [afterAndX, s0, ha], rfl⟩
-      · rw [← relationsHold_splitAndX C sM.env sM.P.length c.unmarshal body 0 hb]; exact hrel
+        (go_andx_prefix C a b cc dd sM.P c.unmarshal body0 s0 hb h0).trans (go_normWhole C body0 _).symm, ?_, ?_, fun _ => ?_, ?_, by simp [afterAndX, s0, ha], rfl⟩
+      · rw [relationsHold_normWhole, ← relationsHold_splitAndX C sM.env sM.P.length c.unmarshal body0 0 hb]; exact hrel
       · intro f hf
         have : f = andxField := by simpa using hf
         subst this
         show (env0.set andxField (andxVal a b cc dd)).get andxField = _
         rw [Env.get_set_self, hframe, hval]
       · rw [hframe, hval]; rfl
-      · show Recv (recvFields body) (env0.set andxField (andxVal a b cc dd)) sM.env
+      · show Recv (recvFields (normWhole body0)) (env0.set andxField (andxVal a b cc dd)) sM.env
         exact hsz0.set_ne andxField _ (fun p hp => (F.range p hp).1)
   obtain ⟨s1, h1P, h1D, h1o, hgo, hrelB, hag1, hseenA, hsz1, hwc1, hpad1⟩ := hgo
   have hwc : WcTells sM.env s1.wordCount u := by
-    intro b w e f k hmem x hx
-    have hbP : b = .P := by
-      cases b with
-      | P => rfl
-      | D =>
-        have := F.optD (.opt .D w e f (some k)) (List.mem_filter.mpr ⟨hmem, by simp [Slot.blk]⟩)
-        simp at this
-    subst hbP
-    have := optTrailing_wc (C := C) (T := T) c.isAndX sM.env (u.filter (·.blk == .P)) 0 F.optP
-      (fun sl hsl => hfitU sl (List.mem_filter.mp hsl).1) .P w e f k
-      (List.mem_filter.mpr ⟨hmem, by simp [Slot.blk]⟩) x hx
-    rw [hwc1, wordCountOf, hP, hbP']
-    simpa using this
+    refine ⟨?_, ?_⟩
+    · intro b w e f k hmem x hx
+      have hbP : b = .P := by
+        cases b with
+        | P => rfl
+        | D =>
+          have := F.optD (.opt .D w e f (some k)) (List.mem_filter.mpr ⟨hmem, by simp [Slot.blk]⟩)
+          simp at this
+      subst hbP
+      have := optTrailing_wc (C := C) (T := T) hC c.isAndX sM.env (u.filter (·.blk == .P)) 0 F.optP
+        (fun sl hsl => hfitU sl (List.mem_filter.mp hsl).1) .P w e f k
+        (List.mem_filter.mpr ⟨hmem, by simp [Slot.blk]⟩) x hx
+      rw [hwc1, wordCountOf, hP, hbP']
+      simpa using this
+    · intro b w e f n k hmem xs hx hlen
+      have hbP : b = .P := by
+        cases b with
+        | P => rfl
+        | D =>
+          have := F.optD (.optInts .D w e f n (some k)) (List.mem_filter.mpr ⟨hmem, by simp [Slot.blk]⟩)
+          simp at this
+      subst hbP
+      have := optTrailing_wcArr (C := C) (T := T) hC c.isAndX sM.env (u.filter (·.blk == .P)) 0 F.optP
+        (fun sl hsl => hfitU sl (List.mem_filter.mp hsl).1) .P w e f n k
+        (List.mem_filter.mpr ⟨hmem, by simp [Slot.blk]⟩) xs hx hlen
+      rw [hwc1, wordCountOf, hP, hbP']
+      simpa using this
   have hinv : Inv C sM.env {} s1.P s1.D s1.offset u := by
     rw [h1P, h1D, h1o]
     refine ⟨?_, ?_, fun _ => rfl⟩
